@@ -72,8 +72,13 @@ template<class T> struct Machine : IMachine {
     if (o == "rs.copy") { size_t k = toU(t[1]), j = toU(t[2]); std::unique_ptr<RangeSet<T>> c(new RangeSet<T>(*rs[k])); rs[j] = std::move(c); return showRs(j); }
     if (o == "rs.assign") { size_t k = toU(t[1]), j = toU(t[2]); *rs[j] = *rs[k]; return showRs(j); }
     if (o == "rs.get") { size_t k = toU(t[1]); return showRs(k); }
-    if (o == "r.pred") {
-      Range<T> x(val(t[1]), val(t[2])), r(val(t[3]), val(t[4]));
+    if (o == "mr.addsh") {  // a shift result as argument (for unsigned possibly wrapped: begin > end)
+      size_t k = toU(t[1]); Range<T> x(val(t[2]), val(t[3])); x -= val(t[4]); mr[k]->addRange(x); return showMr(k);
+    }
+    if (o == "r.pred" || o == "r.shpred") {
+      const bool sh = (o == "r.shpred");
+      Range<T> x(val(t[1]), val(t[2])), r(val(t[sh ? 4 : 3]), val(t[sh ? 5 : 4]));
+      if (sh) x -= val(t[3]);
       return num(x.begin()) + " " + num(x.end()) + " " + (x.overlap(r) ? "1" : "0") + " " + (x.isContiguous(r) ? "1" : "0") + " "
         + (x.contains(r) ? "1" : "0") + " " + (x.isEmpty() ? "1" : "0") + " " + num(x.length())
         + " " + (x == r ? "1" : "0") + " " + (x != r ? "1" : "0") + " " + (x < r ? "1" : "0") + " " + x.toString();
